@@ -252,7 +252,7 @@ def _dom_qgauss_seq(tier, seed):
             if n is None and cur is None:
                 n = 7
             eff = n if n is not None else cur
-            cur = eff
+            prev, cur = cur, eff
             if rng.random() < 0.6:
                 a, b = rng.choice([(-4.0, 4.0), (0.0, 1e-6), (2.0, -1.0), (-1e3, 5e3)])
                 calls.append(("func", (a, b, rng.choice(funcs)), n, eff))
@@ -264,6 +264,7 @@ def _dom_qgauss_seq(tier, seed):
                     xs = np.unique(xs)
                     m = xs.size
                     if m < 2:
+                        cur = prev          # this call is dropped: the object has not seen its point count
                         continue
                 ys = np.array([rng.uniform(-2, 2) for _ in range(m)])
                 calls.append(("data", (xs, ys), n, eff))
